@@ -437,7 +437,7 @@ func c18EndToEndMode(c *Ctx, mode string) {
 
 func init() {
 	addCheck(&Check{ID: "C18", Level: "exploration",
-		Rule:   "all route tables of <=4 (thorough <=5) entries over a 14-pattern universe (incl. equal-length overlapping wildcards and inner wildcards) x 20 hosts (incl. hosts in which a pattern's tail occurs twice and hosts in which the literal pieces around an inner wildcard would have to overlap), each lookup executed under every map iteration order (all permutations, explorer choice); non-trivial = at least one entry matches; plus, per table, all hosts looked up forwards and backwards on ONE table instance (the answer must not depend on earlier lookups; for tables of <=2 entries also with 700 - thorough 6000 - further distinct hosts looked up in between), the port rule table and end-to-end lookups by To host through a proxy configured from YAML, with one route entry per pattern and with all patterns of a table as the destinations of ONE entry (both orders)",
+		Rule:   "all route tables of <=4 (thorough <=5) entries over a 15-pattern universe (incl. equal-length overlapping wildcards, inner wildcards and a literal with capitals) x 21 hosts (incl. hosts in which a pattern's tail occurs twice and hosts in which the literal pieces around an inner wildcard would have to overlap), each lookup executed under every map iteration order (all permutations, explorer choice); non-trivial = at least one entry matches; plus, per table, all hosts looked up forwards and backwards on ONE table instance (the answer must not depend on earlier lookups; for tables of <=2 entries also with 700 - thorough 6000 - further distinct hosts looked up in between), the port rule table and end-to-end lookups by To host through a proxy configured from YAML, with one route entry per pattern and with all patterns of a table as the destinations of ONE entry (both orders)",
 		Assume: []string{"Go's regexp package is trusted for nothing: the reference matcher is an independent recursive wildcard matcher"},
 		Run:    c18Run,
 		Replay: func(c *Ctx, raw json.RawMessage) string {
